@@ -1,12 +1,14 @@
 ---------------------------- MODULE ImmutableGen ----------------------------
 EXTENDS Immutable, Json
+CONSTANT ProducerSel     \* "all", or one producer (the thorough tier runs one JVM per producer)
 B(b) == Scalar("bytes", b)
 k1 == <<97>>  k2 == <<98, 98>>  k3 == <<99>>
 V1 == MapV(<<k2, k1, k3>>, <<I(1), ListV(<<I(2), B(<<1, 2, 3, 4>>), S(<<104, 101, 108, 108, 111>>)>>), B(<<9, 8, 7, 6, 5>>)>>)
 V2 == ListV(<<S(<<119, 111, 114, 108, 100>>), I(3), MapV(<<k1>>, <<I(4)>>)>>)
 V3 == B(<<10, 20, 30, 40>>)
 GenValues == {V1, V2, V3}
-GenProducers == {"basic-any", "basic-typed", "bind", "decode-cbor", "decode-json"}
+AllProducers == {"basic-any", "basic-typed", "bind", "decode-cbor", "decode-json"}
+GenProducers == IF ProducerSel = "all" THEN AllProducers ELSE {ProducerSel}
 GenOps == {"read", "iter-partial", "encode-cbor", "encode-json", "copy-extend-basic", "copy-extend-bind", "embed-extend",
            "assign-top-then-reset", "reset-reuse", "walk", "walk-subset", "transform", "store-load", "stale-assembler"}
 Emit == Done => PrintT(ToJson([first |-> nodes[1], steps |-> hist, nodes |-> nodes]))
